@@ -212,9 +212,17 @@ def cache_keys(ctx, rule='A8'):
     nd = ctx.prog.cls(f'{MATRIX}:Node')
     attrs = sorted(nd.instance_attrs)
     used = set()
+    # the two connector lists enter the key as two components: rendered over their concatenation the key does not say
+    # where the source list ends (1 source x 3 targets and 3 sources x 1 target of the same connectors would share an entry)
+    joint = [c for v in ORIG for c in ast.walk(v) if isinstance(c, (ast.ListComp, ast.GeneratorExp)) and
+             'self.src' in norm(c.generators[0].iter) and 'self.tgt' in norm(c.generators[0].iter)]
+    ctx.ob(rule, fkey(gk, rule, 'sides-rendered-separately'), not joint, gk.where,
+           'source and target connectors are separate components of the key (their split is part of what is cached)',
+           short(joint[0], 90) if joint else 'rendered per side')
     for side in ('src', 'tgt'):
         comps = [c for v in ORIG for c in ast.walk(v)
-                 if isinstance(c, (ast.ListComp, ast.GeneratorExp)) and norm(c.generators[0].iter) == f'self.{side}']
+                 if isinstance(c, (ast.ListComp, ast.GeneratorExp)) and
+                 (norm(c.generators[0].iter) == f'self.{side}' or c in joint)]
         maps = [c for v in ORIG for c in ast.walk(v)
                 if isinstance(c, ast.Call) and call_name(c) == 'map' and len(c.args) == 2 and
                 norm(c.args[1]) == f'self.{side}' and isinstance(c.args[0], ast.Name) and c.args[0].id in ('repr', 'str')]
